@@ -234,7 +234,18 @@ func (x *Exec) valueInstr(st *State, b *ssa.BasicBlock, i int, ins ssa.Value, k 
 		for _, s := range ins.States {
 			names = append(names, provName(x.val(st, s.Chan)))
 		}
-		x.event(st, Event{Name: "chselect", Pos: ins.Pos(), Args: []SVal{mkU(q(x.D.constOf("sel!"+strings.Join(names, ","), "U")))}})
+		// the event carries the channels of the select's cases, in source order: chselect(in, done); a select with a
+		// default case (a poll) is a different event, chpoll(...)
+		var chans []SVal
+		for _, s := range ins.States {
+			chans = append(chans, x.val(st, s.Chan))
+		}
+		_ = names
+		evn := "chselect"
+		if !ins.Blocking {
+			evn = "chpoll"
+		}
+		x.event(st, Event{Name: evn, Pos: ins.Pos(), Args: chans})
 		elems := []SVal{mkInt(idx), mkBool(q(x.D.fresh("recvok", "Bool")))}
 		tup := ins.Type().(*types.Tuple)
 		for j := 2; j < tup.Len(); j++ {
